@@ -177,6 +177,10 @@ def corpus_fp(m, tick=None):
         add([scen.row_fp(r) for r in hr.trajectory])
         if kw.get("extra_data"):
             hr_extra = hr
+    # requests WITHOUT a step (the default step is derived from the range inside the library) in ranges whose round trip through
+    # another distance unit is not exact
+    for rq in (U.Foot(1300), U.Foot(950), U.Yard(700), U.Meter(800)):
+        add([scen.row_fp(r) for r in calc.fire(shot, rq).trajectory])
     d = hr_extra.danger_space(U.Meter(300), U.Centimeter(50), U.Degree(3))
     add([scen.row_fp(d.begin), scen.row_fp(d.end), scen.row_fp(d.at_range)])
     row = hr_extra.get_at_distance(U.Meter(400))
